@@ -413,11 +413,11 @@ pub fn run(ctx: &Ctx, r: &mut Report) {
 			}
 			constant(&m, n, r);
 			// (i) exact affine scaling for all lengths, one class (rotated); the rest for a stratified set
-			let strat = ctx.thorough || n <= 12 || n % 16 == 0 || n >= maxlen(kind) - 1;
+			let strat = ctx.thorough || n <= 24 || n % 8 == 0 || n >= maxlen(kind) - 1;
 			let class = ((n + ctx.seed) % 8) as usize;
 			affine(&m, n, class, ctx.seed ^ k << 8, r);
 			if strat {
-				let ncl = ctx.pick(3, 8);
+				let ncl = ctx.pick(5, 8);
 				for j in 0..ncl {
 					let class = (n as usize + j * 3 + ctx.seed as usize) % 8;
 					if NONNEG.contains(&kind) {
